@@ -133,6 +133,7 @@ func main() {
 		},
 		Exhaustive: true,
 	}, func(c *mon.Ctx) {
+		c.Cases("stall", c.N(3, 40), stallCase)
 		c.Cases("scenario", c.N(480, 8000), func(k *mon.Case) {
 			r := k.R
 			g := node.EqualGenesis(1 + r.Intn(4))
@@ -280,32 +281,39 @@ func main() {
 				}
 			}
 			n0.Close()
-			// reference: rebuild on a counting FS, run the step with dumps after each sub-step
-			fsr := crashfs.New()
-			cfgr := cfg
-			cfgr.FS = fsr
-			nr, err := rebuild(cfgr, preBlocks, kind)
-			if err != nil {
-				k.Inconclusive("rebuild:" + err.Error())
-				return
-			}
-			allowed = append(allowed, canon(node.Dump(nr.DB)))
-			fsr.StartTrace()
-			c0 := fsr.Count()
-			for _, op := range st.ops {
-				if err := op(nr); err != nil {
-					k.Inconclusive("reference-step-failed:" + err.Error())
-					nr.Close()
-					return
-				}
-				allowed = append(allowed, canon(node.Dump(nr.DB)))
-			}
-			trace := fsr.StopTrace()
-			N := fsr.Count() - c0
-			nr.Close()
-			runCrashes(k, cfg, preBlocks, st, allowed, trace, N, false, small)
+			referenceAndCrash(k, cfg, preBlocks, st, kind, small)
 		})
 	})
+}
+
+// referenceAndCrash rebuilds the prefix on a counting FS, runs the step once with a dump after each
+// sub-step (the allowed states) and then once per FS-call boundary with a power loss there.
+func referenceAndCrash(k *mon.Case, cfg node.Config, preBlocks []*blockchain.Block, st step, kind string, small bool) {
+	allowed := [][]node.KV{}
+	// reference: rebuild on a counting FS, run the step with dumps after each sub-step
+	fsr := crashfs.New()
+	cfgr := cfg
+	cfgr.FS = fsr
+	nr, err := rebuild(cfgr, preBlocks, kind)
+	if err != nil {
+		k.Inconclusive("rebuild:" + err.Error())
+		return
+	}
+	allowed = append(allowed, canon(node.Dump(nr.DB)))
+	fsr.StartTrace()
+	c0 := fsr.Count()
+	for _, op := range st.ops {
+		if err := op(nr); err != nil {
+			k.Inconclusive("reference-step-failed:" + err.Error())
+			nr.Close()
+			return
+		}
+		allowed = append(allowed, canon(node.Dump(nr.DB)))
+	}
+	trace := fsr.StopTrace()
+	N := fsr.Count() - c0
+	nr.Close()
+	runCrashes(k, cfg, preBlocks, st, allowed, trace, N, false, small)
 }
 
 func rebuild(cfg node.Config, pre []*blockchain.Block, kind string) (*node.Node, error) {
@@ -445,4 +453,75 @@ func opClass(op string) string {
 		}
 	}
 	return op
+}
+
+// stallCase: finality stalls for hundreds of blocks (one validator generates alone, events are kept
+// until finality), then the other validators return and one block raises the finalized height by
+// hundreds of heights at once: that block prunes the events / state diffs of all those heights.
+// The step is that block; however much it deletes, it must stay one atomic write.
+func stallCase(k *mon.Case) {
+	r := k.R
+	nv := 3 + r.Intn(2)
+	cfg := node.Config{Genesis: node.EqualGenesis(nv), Universe: nv, BatchSize: nv, MaxBlockCache: 6 + r.Intn(10), KeepEventsForHeights: []int{0, 2}[r.Intn(2)]}
+	cfg.FS = crashfs.New()
+	n0, err := node.New(cfg)
+	if err != nil {
+		k.Inconclusive("node-init")
+		return
+	}
+	defer n0.Close()
+	cfg.GenesisTimestamp = n0.Cfg.GenesisTimestamp
+	lone := n0.Universe[r.Intn(nv)]
+	stall := 270 + r.Intn(80)
+	var pre []*blockchain.Block
+	for i := 0; i < stall; i++ {
+		s := 0
+		for t := 1; t <= 2*nv; t++ {
+			if g, _, err := n0.SlotGenerator(t); err == nil && g == lone {
+				s = t
+				break
+			}
+		}
+		if s == 0 {
+			k.Inconclusive("no-slot-for-the-lone-generator")
+			return
+		}
+		b, err := n0.NextBlock(node.BlockOpts{SlotsAhead: s, Directive: &node.Directive{Salt: r.Intn(1 << 20), Events: 1 + r.Intn(2)}})
+		if err != nil || n0.Apply(b) != nil {
+			k.Inconclusive("build-stall")
+			return
+		}
+		pre = append(pre, b)
+	}
+	if n0.Finalized() != 0 {
+		k.Inconclusive("finality-did-not-stall")
+		return
+	}
+	// the others return: blocks by every validator in turn until one raises the finalized height
+	var st step
+	st.kind = "apply-after-finality-stall"
+	for i := 0; i < 4*nv; i++ {
+		b, err := n0.NextBlock(node.BlockOpts{Directive: &node.Directive{Salt: r.Intn(1 << 20), Events: r.Intn(2)}})
+		if err != nil {
+			k.Inconclusive("build-return")
+			return
+		}
+		if err := n0.Apply(node.CloneBlock(b)); err != nil {
+			k.Inconclusive("build-return-apply")
+			return
+		}
+		if n0.Finalized() > 0 {
+			k.Count("finalized_height_jump", int(n0.Finalized()))
+			k.Count("stall_cases_with_jump_above_256", map[bool]int{true: 1, false: 0}[n0.Finalized() > 256])
+			bb := b
+			st.ops = append(st.ops, func(n *node.Node) error { return n.Apply(node.CloneBlock(bb)) })
+			break
+		}
+		pre = append(pre, b)
+	}
+	if len(st.ops) == 0 {
+		k.Inconclusive("finality-did-not-return")
+		return
+	}
+	referenceAndCrash(k, cfg, pre, st, "apply", false)
 }
